@@ -3,6 +3,7 @@
 pub mod explorer;
 pub mod gen;
 pub mod graph;
+pub mod market;
 pub mod oracle;
 pub mod run;
 pub mod symmetry;
